@@ -96,8 +96,24 @@ func c34NewWorld() *c34World {
 			panic("actor funding failed")
 		}
 	}
+	// bonders in the bonder lists of several P-Reps (through the P-Rep owners' setBonderList):
+	// actor 5 (bonders[0]) may bond to P-Reps 0,1,2; actor 6 (bonders[1]) to P-Reps 1,0  -- see c34MayBond
+	addBonder := func(prep int, bonder module.Address) {
+		bl := append(icstate.BonderList{}, w.sim.GetBonderList(preps[prep])...)
+		bl = append(bl, common.AddressToPtr(bonder))
+		rc, err = w.sim.GoBySetBonderList(nil, preps[prep], bl)
+		if err != nil || !icsim.CheckReceiptSuccess(rc...) {
+			panic(fmt.Sprintf("setBonderList failed: %v", err))
+		}
+	}
+	addBonder(1, bonders[0])
+	addBonder(2, bonders[0])
+	addBonder(0, bonders[1])
 	return w
 }
+
+// c34MayBond: the bonder lists of the environment (parameter of the model, same table in Driver/C34.lean)
+var c34MayBond = map[int][]int{5: {0, 1, 2}, 6: {1, 0}, 7: {0}}
 
 type c34Acct struct {
 	bal, stake     *big.Int
@@ -454,14 +470,45 @@ func c34Case(g *Gen, nOps int) {
 			t := g.Intn(3)
 			switch i {
 			case 5:
-				t = g.Pick(0, 0, 0, 1)
+				t = g.Pick(0, 0, 1, 2, 3)
 			case 6:
-				t = g.Pick(1, 1, 1, 0)
+				t = g.Pick(1, 1, 0, 2)
 			case 7:
 				t = g.Pick(0, 0, 0, 2)
 			}
 			var vs []c34Vote
-			switch g.Intn(6) {
+			sub2 := g.Intn(6)
+			if al := c34MayBond[i]; len(al) > 1 && g.Intn(2) == 0 {
+				sub2 = 6 + g.Intn(3)
+			}
+			switch sub2 {
+			case 6: // split the whole voting power between two P-Reps the account may bond to
+				al := c34MayBond[i]
+				t1, t2 := al[0], al[1+g.Intn(len(al)-1)]
+				if avail.Sign() > 1 {
+					h1 := c34Amt(g, avail)
+					if g.Intn(2) == 0 {
+						h1 = new(big.Int).Rsh(avail, 1)
+					}
+					if h1.Sign() > 0 && h1.Cmp(avail) < 0 {
+						vs = []c34Vote{{t1, h1}, {t2, new(big.Int).Sub(avail, h1)}}
+					}
+				}
+			case 7: // move the whole current bond to one P-Rep in one call (bond total unchanged, at full stake or not)
+				al := c34MayBond[i]
+				if ac.bond.Sign() > 0 {
+					vs = []c34Vote{{al[g.Intn(len(al))], new(big.Int).Set(ac.bond)}}
+				}
+			case 8: // move part of the bond between P-Reps, total unchanged
+				al := c34MayBond[i]
+				if len(ac.bonds) > 0 && ac.bond.Sign() > 1 {
+					keep := c34Amt(g, ac.bond)
+					t1 := ac.bonds[0].to
+					t2 := al[g.Intn(len(al))]
+					if t2 != t1 && keep.Sign() > 0 && keep.Cmp(ac.bond) < 0 {
+						vs = []c34Vote{{t1, keep}, {t2, new(big.Int).Sub(ac.bond, keep)}}
+					}
+				}
 			case 0:
 			case 1:
 				vs = []c34Vote{{t, new(big.Int).Add(avail, one)}}
